@@ -99,7 +99,8 @@ DProj(kind, e) ==
 
 \* ret = [yield, lens, rem]: n items taken, exact lengths before each poll,
 \* rem = what the cursor still holds (as shown by Debug / a clone / count)
-\* op = the cursor op: op.fin \in {"none", "nth", "find", "any", "all", "position", "last", "fold"} (with op.j) says how the
+\* op = the cursor op: op.fin \in {"none", "nth", "find", "find_map", "any", "all", "position", "last", "min_by", "max_by",
+\* "fold", "for_each", "reduce", "collect"} (with op.j) says how the
 \* rest is consumed after the n plain next() calls; F = the entries that call hands to the caller
 DEpisode(D, kind, n, op, ret, Y, F) ==   \* Y = the set of entries that were yielded
   /\ Len(ret.yield) = n /\ DNoRepeat(ret.yield)
@@ -114,15 +115,15 @@ DEpisode(D, kind, n, op, ret, Y, F) ==   \* Y = the set of entries that were yie
   /\ LET m == Cardinality(D) - n IN      \* items still to come
      /\ F \subseteq D \ Y /\ DNoRepeat(ret.fin.r) /\ DRange(ret.fin.r) = {DProj(kind, e) : e \in F}
      /\ CASE op.fin = "none" -> F = {} /\ ret.fin.some = "nofin" /\ ret.fin.after = m
-          [] op.fin \in {"nth", "find"} ->
+          [] op.fin \in {"nth", "find", "find_map"} ->
                                 IF op.j < m THEN Cardinality(F) = 1 /\ ret.fin.some = "item" /\ ret.fin.after = m - op.j - 1
                                 ELSE F = {} /\ ret.fin.some = "none" /\ ret.fin.after = 0
           [] op.fin \in {"any", "all", "position"} ->      \* short-circuit at index j, or run through everything
                                 IF op.j < m THEN F = {} /\ ret.fin.some = "hit" /\ ret.fin.after = m - op.j - 1
                                 ELSE F = {} /\ ret.fin.some = "miss" /\ ret.fin.after = 0
-          [] op.fin = "last" -> IF m > 0 THEN Cardinality(F) = 1 /\ ret.fin.some = "item" /\ ret.fin.after = 0
+          [] op.fin \in {"last", "min_by", "max_by"} -> IF m > 0 THEN Cardinality(F) = 1 /\ ret.fin.some = "item" /\ ret.fin.after = 0
                                 ELSE F = {} /\ ret.fin.some = "none" /\ ret.fin.after = 0
-          [] op.fin = "fold" -> F = D \ Y /\ ret.fin.some = "seq" /\ ret.fin.after = 0
+          [] op.fin \in {"fold", "for_each", "reduce", "collect"} -> F = D \ Y /\ ret.fin.some = "seq" /\ ret.fin.after = 0
 
 DYielded(D, kind, ret) == {e \in D : \E i \in 1..Len(ret.yield) : ret.yield[i] = DProj(kind, e)}
 DTaken(D, kind, ret) == {e \in D : \E i \in 1..Len(ret.fin.r) : ret.fin.r[i] = DProj(kind, e)}
